@@ -765,6 +765,9 @@ def xvc_args(cmd, setting):
         g += ["-c", "git.auto_commit=false", "-c", "git.auto_stage=true"]
     elif setting == "nogit":
         g += ["-c", "git.use_git=false"]
+    elif setting == "nogit_init":
+        # `xvc init --no-git` INSIDE the user's Git repository: xvc must not use Git at all (only for the command init)
+        return g + ["init", "--no-git"]
     elif setting == "nogit_stage":
         # Git use switched off wins over auto_stage: no Git call at all
         g += ["-c", "git.use_git=false", "-c", "git.auto_commit=false", "-c", "git.auto_stage=true"]
@@ -783,7 +786,7 @@ def xvc_args(cmd, setting):
 
 def setting_flags(setting):
     """use_git, auto_commit, auto_stage, skip_git, to_branch, from_ref"""
-    return {"default": (1, 1, 0, 0, "-", "-"), "auto_stage": (1, 0, 1, 0, "-", "-"), "nogit": (0, 1, 0, 0, "-", "-"),
+    return {"default": (1, 1, 0, 0, "-", "-"), "auto_stage": (1, 0, 1, 0, "-", "-"), "nogit": (0, 1, 0, 0, "-", "-"), "nogit_init": (0, 1, 0, 0, "-", "-"),
             "nogit_stage": (0, 0, 1, 0, "-", "-"), "skipgit": (1, 1, 0, 1, "-", "-"), "tobranch": (1, 1, 0, 0, "feat", "-"),
             "fromref": (1, 1, 0, 0, "-", "n:v1")}[setting]
 
@@ -920,7 +923,7 @@ def oracle(repo, before, after, cmd, setting, xvc_touched):
     for p in sorted(set(after["cached_names"]) - set(before["cached_names"])):
         if not is_managed(p):
             bad.append("%s became staged" % p)
-        elif setting in ("default", "tobranch", "fromref", "nogit", "skipgit", "nogit_stage"):
+        elif setting in ("default", "tobranch", "fromref", "nogit", "nogit_init", "skipgit", "nogit_stage"):
             bad.append("managed file %s left staged although %s" % (p, "Git use is off" if setting == "nogit_stage" else "auto_stage is off"))
     for p in before["index"]:
         if not is_managed(p) and before["index"][p] != after["index"].get(p):
@@ -973,7 +976,7 @@ def oracle(repo, before, after, cmd, setting, xvc_touched):
             for p in (x.strip("\n") for x in out.split("\0")):
                 if p and not is_managed(p):
                     bad.append("commit %s made by xvc contains user file %s" % (c[:8], p))
-    if new and ((cmd in READONLY and managed_clean_before) or setting in ("nogit", "skipgit", "auto_stage", "nogit_stage")):
+    if new and ((cmd in READONLY and managed_clean_before) or setting in ("nogit", "nogit_init", "skipgit", "auto_stage", "nogit_stage")):
         bad.append("%d commit(s) created by %s" % (len(new), "a read-only command" if cmd in READONLY else "a run with " + setting))
     return bad, len(new)
 
@@ -1102,6 +1105,7 @@ def all_scenarios():
             yield {"features": list(fs), "command": INIT, "setting": "default"}
             # `xvc --skip-git init` in the user's Git repository: no Git operation at all (oracle only, like every init run)
             yield {"features": list(fs), "command": INIT, "setting": "skipgit"}
+            yield {"features": list(fs), "command": INIT, "setting": "nogit_init"}
 
 
 def pick_scenarios(rng, tier):
@@ -1322,7 +1326,7 @@ def run(chk, replay=None):
             jobs = []
             for r in results:
                 sc = r["sc"]
-                chk.count(("b",) + sc_key(sc), bool(r.get("staged_before")) and sc["setting"] not in ("nogit", "skipgit", "nogit_stage"))
+                chk.count(("b",) + sc_key(sc), bool(r.get("staged_before")) and sc["setting"] not in ("nogit", "nogit_init", "skipgit", "nogit_stage"))
                 for f in sc["features"] or ["none"]:
                     dist["feat:" + f] = dist.get("feat:" + f, 0) + 1
                 dist["cmd:" + sc["command"]] = dist.get("cmd:" + sc["command"], 0) + 1
